@@ -62,6 +62,8 @@ def main(prop, tier):
             fdiag = pool.submit(side_unit.run, 'diag')
             fdiagc = pool.submit(side_unit.canary, 'diag', side_unit.UNITS['diag']['canaries'][0], 0)
             fnat = pool.submit(witness.enumerate_inputs, 2 if tier == 'quick' else 3, 45 if tier == 'quick' else 400, seed(), REPO, ['error-range'])
+            # ... and of the deep-nesting inputs (the depth limit records its own error and skips the rest of the input)
+            fdeep = pool.submit(witness.deep_check, (105, 150), ['error-range'], REPO)
             results = kani_run.run_many(d, HARNESSES, (), 900, jobs=2)
             can = [f.result() for f in fc]
             ded = fded.result()
@@ -70,6 +72,12 @@ def main(prop, tier):
                 nat_w, nat_n = fnat.result()
             except Undecided:
                 nat_w, nat_n = None, 0
+            try:
+                deep_w, deep_n = fdeep.result()
+            except Undecided:
+                deep_w, deep_n = None, 0
+            if deep_w and not nat_w:
+                nat_w = deep_w
     except (Undecided, OSError) as e:
         return undecided(prop, tier, t0, str(e))
     bad = [r for r in results if r['status'] in ('ERROR', 'TIMEOUT')]
@@ -133,7 +141,7 @@ def main(prop, tier):
            'deductive_part_diagnostic_conversion': {k: v for k, v in diag.items() if k != 'per_function_ms'},
            'checker_cmd': results[0]['cmd'],
            'deductive_part': {k: v for k, v in ded.items() if k != 'failures'},
-           'native_enumeration': {'what': 'every syntax error of parse_module(input) has the whole range of a token of the tree or is empty at the end of the text', 'inputs_run': nat_n,
+           'native_enumeration': {'what': 'every syntax error of parse_module(input) has the whole range of a token of the tree or is empty at the end of the text', 'inputs_run': nat_n, 'deep_nesting_inputs_run': deep_n,
                                   'bound': 'all sequences of <= %d tokens over a 52-token alphabet in 11 contexts (time budget)' % (2 if tier == 'quick' else 3), 'failed': bool(nat_w)}}
     if ded['status'].startswith('verified'):
         cov['obligations'], cov['discharged'] = ded['verified'] + ded['errors'], ded['verified']
@@ -163,7 +171,11 @@ def replay(prop, path):
     r = json.load(open(path))
     w = r.get('witness')
     if w and w.get('kind') == 'error-range':
-        res = witness.run_one(w['input'])
+        text = w['input']
+        if w.get('input_recipe'):
+            nm, n = w['input_recipe'].rsplit(' x ', 1)
+            text = witness.deep_input(nm, int(n))
+        res = witness.run_one(text)
         print('replay on the working tree: %s' % (('%s: %s' % (res['kind'], res['observed'][:300])) if res else 'no symptom'))
         return 1 if res else 0
     if not w or not w.get('test_source'):
